@@ -61,6 +61,10 @@ def run(ctx, env):
                 return None
             got = local_callees_reaching(prog, fb, r, tname)
             ctx.ob("R5.2", fb.path, "id=%d" % idv, got == want, "set id %d reaches template parsers %s, expected %s" % (idv, sorted(got), sorted(want)))
+    # R5.8
+    ctx.rule("R5.8", "a field value is reported as sent: in every arm of FieldValue::from_field_type (private helpers inlined) no arithmetic, clamping or narrowing cast is applied to a value read from the input bytes, and each dateTime kind gets its unit from the Duration constructor of that unit (shared with C04 R4.11)")
+    from . import valuepath
+    valuepath.rule(ctx, prog, an, "R5.8")
     # R5.7
     from . import records as _rec0
     _rec0.record_stop_rule(ctx, prog, an, "R5.7", IP + "Data::parse_be", "ipfix-data")
